@@ -63,7 +63,7 @@ Definition bw_bytes (w : bitw) : N := div8 (bw_pos w + 7).
 
 (* buffer[0 .. varintBitWriterBytes) *)
 Definition bw_buffer (w : bitw) : list N :=
-  rev (if mod8 (bw_pos w) =? 0 then bw_done w else bw_cur w :: bw_done w).
+  rev_append (if mod8 (bw_pos w) =? 0 then bw_done w else bw_cur w :: bw_done w) [].
 
 (* ---- varintBitReader ---- *)
 Record bitr := mk_bitr {
